@@ -24,15 +24,20 @@ class Untranslatable(Exception):
 
 
 def _guards_of(fn):
-    """tests of `if <test>: raise ...` statements mentioning _min/_max inside fn; returns list of ast exprs (reject conds)"""
+    """range guards inside fn as reject conditions (ast exprs): tests of `if <test>: raise ...` mentioning the limits, and the
+    negation of `if <test>: return ...` accept-tests (the statement after such an `if` must raise)"""
     src = textwrap.dedent(inspect.getsource(fn))
     tree = ast.parse(src)
     out = []
     for node in ast.walk(tree):
-        if isinstance(node, ast.If) and node.body and isinstance(node.body[0], ast.Raise):
+        if isinstance(node, ast.If) and node.body:
             txt = ast.unparse(node.test)
-            if "_min" in txt or "_max" in txt or "_minimum_value" in txt or "_maximum_value" in txt:
+            if not ("_min" in txt or "_max" in txt):
+                continue
+            if isinstance(node.body[0], ast.Raise):
                 out.append(node.test)
+            elif isinstance(node.body[0], ast.Return) and not node.orelse:
+                out.append(ast.UnaryOp(op=ast.Not(), operand=node.test))
     return out
 
 
